@@ -13,6 +13,8 @@ open N0 N0.Py
 
 def Ws (w : Str) : Prop := ∀ c ∈ w, isWs c = true
 
+instance (w : Str) : Decidable (Ws w) := by unfold Ws; exact inferInstance
+
 theorem Ws_nil : Ws [] := by intro c h; cases h
 
 theorem Ws_append {a b : Str} (ha : Ws a) (hb : Ws b) : Ws (a ++ b) := by
@@ -1018,5 +1020,162 @@ theorem kvs_ren (o : Opts) (hp : o.pairsOn = false) : ∀ (kvs : List (Str × Va
       have := kvs_ren o hp kvs hw.2 lvl cond _ _ hl (by omega) ha'
       simpa [joinItem_eq] using this
 end
+
+/-! ### Part 3: `dict(pairs)` is the identity on distinct keys; `prune` keeps well-formedness -/
+
+theorem dictInsert_notin {acc : List (Str × Val)} {k : Str} (v : Val) (h : k ∉ keysOf acc) :
+    dictInsert acc k v = acc ++ [(k, v)] := by
+  induction acc with
+  | nil => rfl
+  | cons p acc ih =>
+    obtain ⟨k', v'⟩ := p
+    simp only [keysOf, List.map_cons, List.mem_cons, not_or] at h
+    simp only [dictInsert, h.1, if_false, List.cons_append]
+    rw [ih (by simpa [keysOf] using h.2)]
+
+theorem insAll_append : ∀ (kvs acc : List (Str × Val)), (∀ k ∈ keysOf kvs, k ∉ keysOf acc) →
+    nodupKeys kvs = true → insAll acc kvs = acc ++ kvs
+  | [], acc, _, _ => by simp [insAll]
+  | (k, v) :: kvs, acc, h, hn => by
+    simp only [nodupKeys, Bool.and_eq_true, Bool.not_eq_true', List.contains_eq_mem,
+      decide_eq_false_iff_not] at hn
+    simp only [insAll]
+    rw [dictInsert_notin v (h k (by simp [keysOf])), insAll_append kvs _ _ hn.2]
+    · simp
+    · intro k' hk'
+      simp only [keysOf, List.map_append, List.map_cons, List.map_nil, List.mem_append,
+        List.mem_singleton, not_or]
+      refine ⟨?_, ?_⟩
+      · have := h k' (by simp only [keysOf, List.map_cons, List.mem_cons]; right; exact hk')
+        simpa [keysOf] using this
+      · intro e; subst e; exact hn.1 hk'
+
+theorem keysOf_decK : ∀ (kvs : List (Str × Val)), keysOf (decK kvs) = keysOf kvs
+  | [] => rfl
+  | (k, v) :: kvs => by
+    have := keysOf_decK kvs
+    simp only [keysOf] at this
+    simp [decK, keysOf, this]
+
+theorem keysOf_eraseKvs : ∀ (kvs : List (Str × Val)), keysOf (eraseKvs kvs) = keysOf kvs
+  | [] => rfl
+  | (k, v) :: kvs => by
+    have := keysOf_eraseKvs kvs
+    simp only [keysOf] at this
+    simp [eraseKvs, keysOf, this]
+
+theorem nodupKeys_congr : ∀ (a b : List (Str × Val)), keysOf a = keysOf b → nodupKeys a = nodupKeys b
+  | [], [], _ => rfl
+  | [], _ :: _, h => by simp [keysOf] at h
+  | _ :: _, [], h => by simp [keysOf] at h
+  | (k, v) :: a, (k', v') :: b, h => by
+    simp only [keysOf, List.map_cons, List.cons.injEq] at h
+    obtain ⟨rfl, h⟩ := h
+    have h' : keysOf a = keysOf b := h
+    simp only [nodupKeys, h', nodupKeys_congr a b h']
+
+mutual
+theorem dec_erase : ∀ (v : Val), wf v = true → dec v = erase v
+  | .none, _ => rfl
+  | .bool _, _ => rfl
+  | .int _, _ => rfl
+  | .flt _, _ => rfl
+  | .str _, _ => rfl
+  | .list c xs, h => by
+    simp only [wf] at h
+    simp only [dec, erase, decL_erase xs h]
+  | .dict c kvs, h => by
+    simp only [wf, Bool.and_eq_true] at h
+    have hk := decK_erase kvs h.1
+    have hn : nodupKeys (decK kvs) = true := by
+      rw [nodupKeys_congr _ _ (keysOf_decK kvs)]; exact h.2
+    simp only [dec, erase]
+    rw [insAll_append _ [] (by intro k _; simp [keysOf]) hn, hk]
+    rfl
+theorem decL_erase : ∀ (xs : List Val), wfL xs = true → decL xs = eraseList xs
+  | [], _ => rfl
+  | x :: xs, h => by
+    simp only [wfL, Bool.and_eq_true] at h
+    simp only [decL, eraseList, dec_erase x h.1, decL_erase xs h.2]
+theorem decK_erase : ∀ (kvs : List (Str × Val)), wfK kvs = true → decK kvs = eraseKvs kvs
+  | [], _ => rfl
+  | (k, v) :: kvs, h => by
+    simp only [wfK, Bool.and_eq_true] at h
+    simp only [decK, eraseKvs, dec_erase v h.1, decK_erase kvs h.2]
+end
+
+theorem keysOf_pruneKvs_sub : ∀ (kvs : List (Str × Val)) (k : Str), k ∈ keysOf (pruneKvs kvs) → k ∈ keysOf kvs
+  | [], k, h => by simp [pruneKvs, keysOf] at h
+  | (k0, v) :: kvs, k, h => by
+    simp only [pruneKvs] at h
+    split at h
+    · simp only [keysOf, List.map_cons, List.mem_cons]
+      right; exact keysOf_pruneKvs_sub kvs k h
+    · simp only [keysOf, List.map_cons, List.mem_cons] at h ⊢
+      rcases h with h | h
+      · left; exact h
+      · right; exact keysOf_pruneKvs_sub kvs k h
+
+theorem nodupKeys_pruneKvs : ∀ (kvs : List (Str × Val)), nodupKeys kvs = true → nodupKeys (pruneKvs kvs) = true
+  | [], _ => by simp [pruneKvs, nodupKeys]
+  | (k, v) :: kvs, h => by
+    simp only [nodupKeys, Bool.and_eq_true, Bool.not_eq_true', List.contains_eq_mem,
+      decide_eq_false_iff_not] at h
+    simp only [pruneKvs]
+    split
+    · exact nodupKeys_pruneKvs kvs h.2
+    · simp only [nodupKeys, Bool.and_eq_true, Bool.not_eq_true', List.contains_eq_mem,
+        decide_eq_false_iff_not]
+      exact ⟨fun hk => h.1 (keysOf_pruneKvs_sub kvs k hk), nodupKeys_pruneKvs kvs h.2⟩
+
+mutual
+theorem wf_prune : ∀ (v : Val), wf v = true → wf (prune v) = true
+  | .none, h => h
+  | .bool _, h => h
+  | .int _, h => h
+  | .flt _, h => h
+  | .str _, h => h
+  | .list c xs, h => by
+    simp only [wf] at h
+    simp only [prune, wf, wfL_prune xs h]
+  | .dict c kvs, h => by
+    simp only [wf, Bool.and_eq_true] at h
+    simp only [prune, wf, Bool.and_eq_true]
+    exact ⟨wfK_prune kvs h.1, nodupKeys_pruneKvs kvs h.2⟩
+theorem wfL_prune : ∀ (xs : List Val), wfL xs = true → wfL (pruneList xs) = true
+  | [], _ => by simp [pruneList, wfL]
+  | x :: xs, h => by
+    simp only [wfL, Bool.and_eq_true] at h
+    simp only [pruneList]
+    split
+    · exact wfL_prune xs h.2
+    · simp only [wfL, Bool.and_eq_true]
+      exact ⟨wf_prune x h.1, wfL_prune xs h.2⟩
+theorem wfK_prune : ∀ (kvs : List (Str × Val)), wfK kvs = true → wfK (pruneKvs kvs) = true
+  | [], _ => by simp [pruneKvs, wfK]
+  | (k, v) :: kvs, h => by
+    simp only [wfK, Bool.and_eq_true] at h
+    simp only [pruneKvs]
+    split
+    · exact wfK_prune kvs h.2
+    · simp only [wfK, Bool.and_eq_true]
+      exact ⟨wf_prune v h.1, wfK_prune kvs h.2⟩
+end
+
+theorem wf_dropEmptyIf (o : Opts) (t : Val) (h : wf t = true) : wf (dropEmptyIf o t) = true := by
+  unfold dropEmptyIf
+  split
+  · exact wf_prune t h
+  · exact h
+
+/-- the reader on a rendering -/
+theorem jsonDecode_ren {v : Val} {s : Str} (h : Ren v s) : jsonDecode s = some (dec v) := by
+  unfold jsonDecode jsonDecodeE
+  have hs := skipWs_startsOk (Ren_startsOk v s h) []
+  simp only [List.append_nil] at hs
+  have := pv_ren v s h (2 * s.length + 2) [] (by omega) rfl
+  simp only [List.append_nil] at this
+  rw [hs, this]
+  rfl
 
 end N0.Json
